@@ -20,7 +20,7 @@ def run_one(m):
         src = open(path).read()
         if m["old"] not in src:
             return m, "STALE", "pattern not found in " + m["file"]
-        open(path, "w").write(src.replace(m["old"], m["new"], 1))
+        open(path, "w").write(src.replace(m["old"], m["new"], 1) + m.get("extra_append", ""))
         env = dict(os.environ, GOFLAGS="-mod=mod", GOPROXY="off", GOSUMDB="off", GOTOOLCHAIN="local")
         b = subprocess.run(["go", "build", "./..."], cwd=repo, env=env, capture_output=True, text=True)
         if b.returncode != 0:
